@@ -540,7 +540,11 @@ class Emulsion(list):
         dist, index = tree.query(positions, 2)
 
         if subtract_radius:
-            return dist[:, 1] - self.data["radius"][index].sum(axis=1)  # type: ignore
+            # the droplet itself is usually the first result of the query, but it could
+            # also be the second one if several droplets are at the same position
+            neighbor = np.where(index[:, 0] == np.arange(len(self)), index[:, 1], index[:, 0])
+            radii = self.data["radius"]
+            return dist[:, 1] - radii - radii[neighbor]  # type: ignore
         else:
             return dist[:, 1]  # type: ignore
 
